@@ -2,13 +2,27 @@
 from vlib import hexs, unhex
 from props import textdoc as td
 from props import textgen as tg
+# >>> a_c01
+from props import C01_more
+# <<< a_c01
 
 RULE = ("documents from the abstract model (8 operators, quoted/unquoted/@var/@[..]/non-ASCII scalars, escaped quotes, nested objects, arrays, "
         "arrays of objects, empty containers, headers, parameter blocks, object->array and array->kv mixed containers) x 8 layout styles "
         "(minimal, spaced, CRLF, tabs, comment-heavy, ';', wild) x BOM x left padding 0..32 x scalar lengths straddling 16-byte blocks; "
         "per-function scanner streams at every (length <= 48, boundary position) pair; byte soups for model-vs-implementation on rejected input; "
-        "parse into a used tape. non-trivial = the parse succeeded with at least one container or operator token, or a scanner case with a boundary byte")
-TRUSTED = ["x86-64 SSE2 intrinsics modelled by their lane-wise meaning (first lane whose byte is in the compared set)"]
+        "parse into a used tape. "
+        # >>> a_c01
+        "Wave 4 (props/C01_more.py): richer documents (headers over objects / nested arrays / quoted items, parameter blocks first in an object, arrays of objects, "
+        "scalars of 15/16/17/31/32/33 bytes) under adversarial gaps (comment or ';' glued to an operator / quote / brace, comment glued to a bare word, lone CR, "
+        "unterminated comment at end of input, BOM + padding 0..33, '=' before '{' toggled on the same document, scalars ending 0..17 bytes before end of input, "
+        "the empty document); exactly the document classes wf_doc excludes (E1..E8 of audit/C01.md) against the reading the look-ahead rules give; chains of 2..6 "
+        "parses into one tape with rejected / BOM / empty inputs in the pool; Operator::symbol/name/Display of every operator token; the non-x86-64 scanners under "
+        "Miri (i686) against the byte-wise specifications and the SWAR model. "
+        # <<< a_c01
+        "non-trivial = the parse succeeded with at least one container or operator token, or a scanner case with a boundary byte")
+TRUSTED = ["x86-64 SSE2 intrinsics modelled by their lane-wise meaning (first lane whose byte is in the compared set)",
+           # a_c01
+           "Miri's interpretation of the i686 build stands for the non-x86-64 targets (the stream is skipped with a note when `cargo +nightly miri` is not installed)"]
 ASSUMPTIONS = ["'mirrors the document' is TextDoc.flatten (Coq, extracted and run on every generated document); the Python copy props/textdoc.flatten is checked against it on every run (stream spec_tie)"]
 
 
@@ -153,6 +167,10 @@ def run(ctx):
     for _ in range(ctx.scale(1500, 20000)):
         sc.append("tt.parse\t%s" % hexs(tg.gen_stream(rng)))
     ctx.correspond("soups", sc, nontrivial=lambda c, i: i.startswith("ok") and len(i) > 8)
+
+    # >>> a_c01 (wave 4): adversarial layouts, the classes wf_doc excludes, reuse chains, non-x86-64 scanners (audit/C01.md)
+    C01_more.run_part(ctx)
+    # <<< a_c01
 
 
 def search(ctx):
